@@ -554,3 +554,170 @@ Proof.
   cbn [option_map]. unfold lpv_tuple, v. cbn [arg nth].
   rewrite <- Hl at 1. rewrite to_of_bytes by exact Hw. reflexivity.
 Qed.
+
+(* ---- Short Position Vector and extended-header decoders ---------------------------------------------------------- *)
+Definition spv_tuple (r : list Z) := ((arg 0 r, arg 1 r, to_bytes 6 (arg 2 r)), arg 3 r, arg 4 r, arg 5 r).
+
+(* ShortPositionVector.decode reads the whole byte string it is given (no length check): stated for exactly 20 octets,
+   which is what the GUC / LS-reply decoders pass *)
+Lemma src_spv_decode data : wf_bytes data = true -> length data = 20%nat ->
+  SPV_decode data = option_map spv_tuple (dec_spv data).
+Proof.
+  intros Hw Hl. unfold SPV_decode, dec_spv, dec_fields. change (hdr_bytes spv_ws) with 20%nat.
+  replace (firstn 20 data) with data by (rewrite <- Hl, firstn_all; reflexivity).
+  rewrite Hl. change (20 <? 20)%nat with false. cbn [obind].
+  pose proof (of_bytes_bound data Hw) as HX. rewrite Hl in HX. change (8 * Z.of_nat 20) with 160 in HX.
+  set (X := of_bytes data) in *. clearbody X. clear data Hw Hl.
+  rewrite !Z.shiftr_div_pow2 by lia.
+  assert (Ht1 : 0 <= X / 2 ^ 96 < 2 ^ 64).
+  { split; [apply Z.div_pos; lia|]. apply Z.div_lt_upper_bound; [lia|]. change (2 ^ 96 * 2 ^ 64) with (2 ^ 160). lia. }
+  replace ((0 <=? X / 2 ^ 96) && (X / 2 ^ 96 <? 2 ^ 64)) with true by lia.
+  rewrite (src_gnaddr_decode_word _ Ht1).
+  assert (Eg : unpack gnaddr_ws (X / 2 ^ 96) = firstn 4 (unpack spv_ws X)).
+  { unfold unpack, spv_ws, gnaddr_ws. cbn [rev app unpack_rev firstn].
+    repeat match goal with |- _ :: _ = _ :: _ => apply f_equal2 end; try reflexivity; flat_div; reflexivity. }
+  unfold view_spv. rewrite <- Eg. destruct (view_gnaddr (unpack gnaddr_ws (X / 2 ^ 96))) as [a|] eqn:Ea; [|reflexivity].
+  cbn [option_map].
+  unfold view_gnaddr in Ea. destruct (arg 1 (unpack gnaddr_ws (X / 2 ^ 96)) <=? 12); [|discriminate].
+  injection Ea as <-.
+  unfold TST_decode. rewrite !to_signed_src_model by lia.
+  unfold spv_tuple, gnaddr_tuple. cbn [app arg nth].
+  unfold unpack, spv_ws, gnaddr_ws. cbn [rev app unpack_rev arg nth].
+  change 4294967295 with (2 ^ 32 - 1). rewrite !land_mask by lia. change 4294967296 with (2 ^ 32).
+  f_equal. repeat match goal with |- (_, _) = (_, _) => apply f_equal2 end; try reflexivity; flat_div; reflexivity.
+Qed.
+
+Lemma src_spv_roundtrip m st mid tst lat lon :
+  0 <= m < 2 -> 0 <= st <= 12 -> wf_bytes mid = true -> length mid = 6%nat -> 0 <= tst < 2 ^ 32 ->
+  - 2 ^ 31 <= lat < 2 ^ 31 -> - 2 ^ 31 <= lon < 2 ^ 31 ->
+  exists octets, SPV_encode m st mid tst lat lon = Some octets /\ length octets = 20%nat /\
+    SPV_decode octets = Some ((m, st, mid), tst, lat, lon).
+Proof.
+  intros Hm Hst Hw Hl Ht Hlat Hlon.
+  pose proof (of_bytes_bound mid Hw) as Hb. rewrite Hl in Hb. change (8 * Z.of_nat 6) with 48 in Hb.
+  set (v := [m; st; of_bytes mid; tst; lat; lon]).
+  assert (Hwf : wf_spv v = true).
+  { unfold wf_spv, wf_gnaddr, in_s, v. cbn [length firstn arg nth Nat.eqb]. rewrite !andb_true_iff, !fits_spec. pow2. lia. }
+  assert (Hlen : length (enc_spv v) = 20%nat) by (unfold enc_spv; rewrite enc_fields_length; reflexivity).
+  exists (enc_spv v). split; [apply src_spv_encode; (assumption || lia)|]. split; [exact Hlen|].
+  assert (Hwb : wf_bytes (enc_spv v) = true).
+  { unfold enc_spv, enc_fields. apply to_bytes_wf.
+    pose proof (pack_bound spv_ws _ widths_nonneg_spv (raw_spv_fits m st (of_bytes mid) tst lat lon ltac:(lia) ltac:(lia) Hb)) as Hpb.
+    change (total_width spv_ws) with 160 in Hpb. change (8 * Z.of_nat (hdr_bytes spv_ws)) with 160. exact Hpb. }
+  rewrite src_spv_decode by auto.
+  rewrite <- (app_nil_r (enc_spv v)). rewrite dec_enc_spv by exact Hwf.
+  cbn [option_map]. unfold spv_tuple, v. cbn [arg nth].
+  rewrite <- Hl at 1. rewrite to_of_bytes by exact Hw. reflexivity.
+Qed.
+
+(* ---- extended header decoders ---------------------------------------------------------------------------------------- *)
+Lemma wf_bytes_skipn n bs : wf_bytes bs = true -> wf_bytes (skipn n bs) = true.
+Proof.
+  unfold wf_bytes. rewrite !forallb_forall. intros H x Hx. apply H.
+  rewrite <- (firstn_skipn n bs). apply in_or_app. right. exact Hx.
+Qed.
+
+Lemma dec_lpv_firstn l : (24 <= length l)%nat -> dec_lpv (firstn 24 l) = dec_lpv l.
+Proof.
+  intros Hl. unfold dec_lpv, dec_fields. change (hdr_bytes lpv_ws) with 24%nat.
+  rewrite firstn_length_le by exact Hl. rewrite firstn_firstn. change (Nat.min 24 24) with 24%nat.
+  replace (length l <? 24)%nat with false by (symmetry; apply Nat.ltb_ge; exact Hl). reflexivity.
+Qed.
+
+(* sequence number and reserved field of every extended header *)
+Lemma sn_fields bs : wf_bytes bs = true -> (4 <= length bs)%nat ->
+  dec_fields sn_ws bs = Some [of_bytes (firstn 2 (skipn 0 bs)); of_bytes (firstn 2 (skipn 2 bs))].
+Proof.
+  intros Hw Hl. destruct bs as [|b0 [|b1 [|b2 [|b3 rest]]]]; cbn [length] in Hl; try lia.
+  unfold dec_fields, sn_ws. change (hdr_bytes [16; 16]) with 4%nat.
+  replace (length (b0 :: b1 :: b2 :: b3 :: rest) <? 4)%nat with false by (symmetry; apply Nat.ltb_ge; cbn [length]; lia).
+  cbn [firstn skipn]. unfold unpack, of_bytes, pack. cbn [rev app unpack_rev map fold_left]. unfold pack_step. cbn [fst snd].
+  unfold wf_bytes in Hw. cbn [forallb] in Hw. unfold is_byte in Hw.
+  f_equal. repeat match goal with |- _ :: _ = _ :: _ => apply f_equal2 end; try reflexivity; pow2; lia.
+Qed.
+
+Definition tsb_tuple (r : list Z) := (arg 0 r, arg 1 r, lpv_tuple (skipn 2 r)).
+
+Lemma src_tsb_decode header : wf_bytes header = true ->
+  TSB_decode header = option_map tsb_tuple (dec_tsb header).
+Proof.
+  intros Hw. unfold TSB_decode, dec_tsb.
+  destruct (Nat.ltb_spec (length header) 28) as [Hlt | Hge].
+  - replace (Z.of_nat (length header) <? 28) with true by lia. reflexivity.
+  - replace (Z.of_nat (length header) <? 28) with false by lia.
+    rewrite sn_fields by (auto; lia). cbn [obind].
+    assert (Hl4 : (24 <= length (skipn 4 header))%nat) by (rewrite skipn_length; lia).
+    rewrite src_lpv_decode by (try apply wf_bytes_firstn; try apply wf_bytes_skipn; auto; rewrite firstn_length_le; lia).
+    rewrite dec_lpv_firstn by exact Hl4.
+    destruct (dec_lpv (skipn 4 header)) as [p|]; reflexivity.
+Qed.
+
+Lemma dec_lpv_length l p : dec_lpv l = Some p -> length p = 9%nat.
+Proof.
+  unfold dec_lpv, dec_fields. destruct (length l <? hdr_bytes lpv_ws)%nat; [discriminate|]. cbn [obind].
+  unfold view_lpv, view_gnaddr. destruct (arg 1 _ <=? 12); [|discriminate]. intros H. injection H as <-. reflexivity.
+Qed.
+
+Definition guc_tuple (r : list Z) := (arg 0 r, arg 1 r, lpv_tuple (firstn 9 (skipn 2 r)), spv_tuple (skipn 11 r)).
+
+Lemma src_guc_decode header : wf_bytes header = true ->
+  GUC_decode header = option_map guc_tuple (dec_guc header) /\ LSRep_decode header = GUC_decode header.
+Proof.
+  intros Hw. split; [|reflexivity]. unfold GUC_decode, dec_guc.
+  destruct (Nat.ltb_spec (length header) 48) as [Hlt | Hge].
+  - replace (Z.of_nat (length header) <? 48) with true by lia. reflexivity.
+  - replace (Z.of_nat (length header) <? 48) with false by lia.
+    rewrite sn_fields by (auto; lia). cbn [obind].
+    assert (Hl4 : (24 <= length (skipn 4 header))%nat) by (rewrite skipn_length; lia).
+    rewrite src_lpv_decode by (try apply wf_bytes_firstn; try apply wf_bytes_skipn; auto; rewrite firstn_length_le; lia).
+    rewrite dec_lpv_firstn by exact Hl4.
+    destruct (dec_lpv (skipn 4 header)) as [p|] eqn:Ep; [|reflexivity]. cbn [option_map obind].
+    assert (Hw28 : wf_bytes (firstn 20 (skipn 28 header)) = true) by (apply wf_bytes_firstn, wf_bytes_skipn; exact Hw).
+    assert (Hl28 : length (firstn 20 (skipn 28 header)) = 20%nat) by (rewrite firstn_length_le; [reflexivity | rewrite skipn_length; lia]).
+    rewrite (src_spv_decode _ Hw28 Hl28).
+    destruct (dec_spv (firstn 20 (skipn 28 header))) as [d|]; [|reflexivity]. cbn [option_map obind].
+    pose proof (dec_lpv_length _ _ Ep) as Lp.
+    unfold guc_tuple. cbn [app skipn arg nth].
+    destruct p as [|p0 [|p1 [|p2 [|p3 [|p4 [|p5 [|p6 [|p7 [|p8 [|p9 pr]]]]]]]]]]; cbn [length] in Lp; try lia.
+    reflexivity.
+Qed.
+
+Lemma src_gnaddr_decode bs : wf_bytes bs = true -> length bs = 8%nat ->
+  GNAddress_decode bs = option_map gnaddr_tuple (dec_gnaddr bs).
+Proof.
+  intros Hw Hl. pose proof (of_bytes_bound bs Hw) as Hb. rewrite Hl in Hb. change (8 * Z.of_nat 8) with 64 in Hb.
+  rewrite <- (to_of_bytes bs Hw) at 1. rewrite Hl. rewrite (src_gnaddr_decode_word _ Hb).
+  unfold dec_gnaddr, dec_fields. change (hdr_bytes gnaddr_ws) with 8%nat. rewrite Hl. change (8 <? 8)%nat with false.
+  replace (firstn 8 bs) with bs by (rewrite <- Hl, firstn_all; reflexivity). reflexivity.
+Qed.
+
+Lemma dec_gnaddr_firstn l : (8 <= length l)%nat -> dec_gnaddr (firstn 8 l) = dec_gnaddr l.
+Proof.
+  intros Hl. unfold dec_gnaddr, dec_fields. change (hdr_bytes gnaddr_ws) with 8%nat.
+  rewrite firstn_length_le by exact Hl. rewrite firstn_firstn. change (Nat.min 8 8) with 8%nat.
+  replace (length l <? 8)%nat with false by (symmetry; apply Nat.ltb_ge; exact Hl). reflexivity.
+Qed.
+
+Definition lsreq_tuple (r : list Z) := (arg 0 r, arg 1 r, lpv_tuple (firstn 9 (skipn 2 r)), gnaddr_tuple (skipn 11 r)).
+
+Lemma src_lsreq_decode header : wf_bytes header = true ->
+  LSReq_decode header = option_map lsreq_tuple (dec_lsreq header).
+Proof.
+  intros Hw. unfold LSReq_decode, dec_lsreq.
+  destruct (Nat.ltb_spec (length header) 36) as [Hlt | Hge].
+  - replace (Z.of_nat (length header) <? 36) with true by lia. reflexivity.
+  - replace (Z.of_nat (length header) <? 36) with false by lia.
+    rewrite sn_fields by (auto; lia). cbn [obind].
+    assert (Hl4 : (24 <= length (skipn 4 header))%nat) by (rewrite skipn_length; lia).
+    rewrite src_lpv_decode by (try apply wf_bytes_firstn; try apply wf_bytes_skipn; auto; rewrite firstn_length_le; lia).
+    rewrite dec_lpv_firstn by exact Hl4.
+    destruct (dec_lpv (skipn 4 header)) as [p|] eqn:Ep; [|reflexivity]. cbn [option_map obind].
+    assert (Hw28 : wf_bytes (firstn 8 (skipn 28 header)) = true) by (apply wf_bytes_firstn, wf_bytes_skipn; exact Hw).
+    assert (Hl28 : length (firstn 8 (skipn 28 header)) = 8%nat) by (rewrite firstn_length_le; [reflexivity | rewrite skipn_length; lia]).
+    rewrite (src_gnaddr_decode _ Hw28 Hl28). rewrite dec_gnaddr_firstn by (rewrite skipn_length; lia).
+    destruct (dec_gnaddr (skipn 28 header)) as [d|]; [|reflexivity]. cbn [option_map obind].
+    pose proof (dec_lpv_length _ _ Ep) as Lp.
+    unfold lsreq_tuple. cbn [app skipn arg nth].
+    destruct p as [|p0 [|p1 [|p2 [|p3 [|p4 [|p5 [|p6 [|p7 [|p8 [|p9 pr]]]]]]]]]]; cbn [length] in Lp; try lia.
+    reflexivity.
+Qed.
